@@ -548,7 +548,8 @@ class C03(ProverCheck):
              "range", "bool_vs_int", "boolop_int", "fxp_const_other_resolution", "int_const_other_bitlength",
              "int_vs_fxp"]
     rule = ("one assertion or type declaration per plan (assert_lt/le/eq/ne/gt/ge on integer, boolean and "
-            "fixed-point operands with secret and constant right-hand sides, assert_zero/nonzero, "
+            "fixed-point operands with secret and constant right-hand sides, integer receiver with fixed-point "
+            "operand and vice versa, assert_zero/nonzero, "
             "assert_positive with and without an explicit width, assert_range with constant and secret "
             "bounds, LinCombBool(x), to_bits(n)), executed on up to 12 operand vectors placed on both sides "
             "of the relation (x-1, x, x+1, +-2^(b-1), 2^b-1, 2^b, ...). Per vector: run with checks on "
@@ -1416,7 +1417,8 @@ class C10(FileCheck):
             "circuit.r1cs / witness.wtns into a scratch directory; an independent decoder of the iden3 "
             "formats checks structure (magic, version, section table, sizes, canonical elements, wire ids) "
             "and the decoded content is compared with the recorder's event log under the numbering one, "
-            "publics, privates; decoded witness must satisfy decoded constraints. non-trivial = distinct "
+            "publics, privates; decoded witness must satisfy decoded constraints; 5 % of the plans run once more "
+            "as a program in a fresh interpreter (python, -O, -OO). non-trivial = distinct "
             "plans with at least one constraint whose files were decoded")
 
     def files_problems(self, files, rec):
@@ -1435,7 +1437,9 @@ class C11(FileCheck):
             "types per file, header (instance ids 1..n with values, free_variable_id, field_maximum = p-1), "
             "constraints equal to the trace with canonical coefficients, witness ids n+1..n+m with values, "
             "decoded assignment satisfies decoded constraints; circuit.zkif has no witness message and is "
-            "byte-identical in a twin run on other private values. non-trivial = distinct plans with at "
+            "byte-identical in a twin run on other private values; 5 % of the plans run once more as a program "
+            "in a fresh interpreter (python, -O, -OO) and the files its exit hook wrote are decoded against the "
+            "trace dumped at proving time. non-trivial = distinct plans with at "
             "least one constraint whose files were decoded")
 
     def files_problems(self, files, rec):
@@ -1503,7 +1507,7 @@ class C18(TraceCheck):
     components = REAL_EXIT
     run_cap_s = 300
     rule = ("one fresh interpreter per (plan, statement position k, termination mode x argument, backend, "
-            "autoprove on/off, stale artefacts yes/no): fall off the end, sys.exit / raise SystemExit / "
+            "autoprove on/off, stale artefacts yes/no, runtime.operation set or not): fall off the end, sys.exit / raise SystemExit / "
             "exit() / quit() with nothing, None, 0, False, non-zero, True, str, 0.0, uncaught exception from "
             "user code, from a failing pysnark assertion, inside a guarded region, inside a @snark function, "
             "in a finally, KeyboardInterrupt, sys.exit caught by the script, os._exit. expected = f(real "
@@ -1986,7 +1990,7 @@ class C20(TraceCheck):
             "the hash module ends up with must be the table entry of runtime.backend_name (unavailable if there "
             "is none; the toy set only for nobackend); traced permutation and sponge (messages of 0..3 blocks, "
             "values across the field) equal the checker's plain-integer reference and the published vectors; "
-            "constraint counts equal across inputs of equal length; traced subset-sum hash equals the plain one. "
+            "constraint counts equal across inputs of equal length; traced subset-sum hash equals the library's plain one and the checker's own reference (coefficients = first SHA512(i || counter), cut to ceil(log2 p) bits, below p). "
             "non-trivial = distinct (selection path, backend, inputs) judged")
 
     def gen(self, rng, i, tier):
@@ -2584,8 +2588,9 @@ class C15(ProverCheck):
     prop = "C15"
     budget = {"quick": 1500, "thorough": 60000}
     components = REAL_TRACE
-    rule = ("read/write histories (<= 8 operations) on 1-D (<= 5) and 2-D (<= 4x3) arrays of constants and "
-            "secrets with public and secret indices inside and outside the bounds, tuple and chained indexing; "
+    rule = ("read/write histories (<= 8 operations) on 1-D (<= 5), 2-D (<= 4x3) and 3-D (<= 3x3x2) arrays of "
+            "constants and secrets with public and secret indices inside and outside the bounds, tuple (2 and 3 "
+            "entries) and chained indexing, whole-row copies; "
             "reference model = Python lists executed from the same generated source (strict bounds for secret "
             "indices); after every operation all arrays and read results must equal the model's; same "
             "exception class at the same statement (IndexError for an out-of-range secret index, TypeError for "
@@ -2805,7 +2810,10 @@ class C17(TraceCheck):
             "order (ints as is, bools as 0/1, floats scaled), then exactly the secret result leaves in "
             "traversal order; the returned plain structure equals the undecorated function run on plain "
             "values (native twin); kwargs => ValueError; fault injection on the assignment: changing one "
-            "output's public value alone must violate some constraint. non-trivial = distinct (argument "
+            "output's public value alone must violate some constraint; a third of the calls sit inside a region "
+            "guarded by a secret condition - under a true guard everything above applies, under a false guard "
+            "the arguments are published exactly, one public output per secret result, and the returned leaves "
+            "equal those outputs. non-trivial = distinct (argument "
             "structure, result structure) pairs whose call completed")
 
     def cfg(self, rng):
